@@ -23,7 +23,8 @@ from ..drivers import AsyncDriver, Harness, SyncDriver, canon_interp
 LEVEL = "model_checking"
 RULE = (
     "LIFE machine (idle / armed[after-timer + invoked child machine + delayed send] / done / failing[unhandled service "
-    "error], spawnChild with systemId); operation alphabet {start, E, FIN, FAIL, SPAWN, ARM, BACK, stop, TICK, "
+    "error], spawnChild with systemId whose child arms delayed sendParent with and without a send id, stopChild); "
+    "operation alphabet {start, E, FIN, FAIL, SPAWN, KILL, ARM, BACK, stop, TICK, "
     "snapshot+restore, snapshot+restore+start}; BFS over operation sequences to the depth bound, deduplicated by "
     "canonical state (status, configuration, context, actors, registry, pending timer/thread census, loop-task "
     "liveness, restored flag); every (state, op) step is judged: allowed status edge, start idempotent / refused after "
@@ -36,7 +37,7 @@ ASSUMPTIONS = [
     "TICK advances virtual time by 1 s with the default schedule (timers in deadline order); other orders are C08/C09's subject",
 ]
 ENGINES = ("sync", "async")
-OPS = ["start", "E", "FIN", "FAIL", "SPAWN", "ARM", "BACK", "stop", "TICK", "SR", "SRS"]
+OPS = ["start", "E", "FIN", "FAIL", "SPAWN", "KILL", "ARM", "BACK", "stop", "TICK", "SR", "SRS"]
 ALLOWED = {
     ("uninitialized", "running"), ("running", "done"), ("running", "error"), ("running", "stopped"),
     ("done", "stopped"), ("error", "stopped"), ("uninitialized", "done"), ("uninitialized", "error"),
@@ -44,8 +45,19 @@ ALLOWED = {
 
 
 def kid_machine():
+    # on entry the child arms two delayed sends to its parent: one carrying a send id, one anonymous
+    hb1 = {"type": "xstate.sendParent", "params": {"event": "KPING1", "delay": 300, "id": "hb"}}
+    hb2 = {"type": "xstate.sendParent", "params": {"event": "KPING2", "delay": 350}}
     return create_machine(
-        {"id": "kid", "initial": "run", "states": {"run": {"after": {"500": "fin"}, "on": {"POKE": {"actions": []}}}, "fin": {"type": "final"}}},
+        {"id": "kid", "initial": "run",
+         "states": {"run": {"entry": [hb1, hb2], "after": {"500": "fin"}, "on": {"POKE": {"actions": []}}}, "fin": {"type": "final"}}},
+        logic=MachineLogic(),
+    )
+
+
+def kid2_machine():
+    return create_machine(
+        {"id": "kid2", "initial": "run", "states": {"run": {"after": {"500": "fin"}}, "fin": {"type": "final"}}},
         logic=MachineLogic(),
     )
 
@@ -62,18 +74,19 @@ def make_cfg() -> Dict[str, Any]:
                 "E": {"actions": ["tr:e"]},
                 "FIN": "done", "FAIL": "failing", "ARM": "armed",
                 "SPAWN": {"actions": [A.spawn_child("kid", actor_id="k1", system_id="sys1"), "tr:spawn"]},
+                "KILL": {"actions": [A.stop_child("k1"), "tr:kill"]},
             }},
             "armed": {
                 "entry": ["en:armed", A.raise_("PING", delay=300)],
                 "exit": ["ex:armed"],
                 "after": {"250": {"target": "idle", "actions": ["tr:after"]}},
-                "invoke": {"id": "inv", "src": "kid", "onDone": {"target": "idle", "actions": ["tr:invdone"]}},
+                "invoke": {"id": "inv", "src": "kid2", "onDone": {"target": "idle", "actions": ["tr:invdone"]}},
                 "on": {"BACK": "idle", "E": {"actions": ["tr:e"]}},
             },
             "done": {"type": "final", "entry": ["en:done"]},
             "failing": {"entry": ["en:failing"], "invoke": {"id": "b", "src": "bad"}, "on": {"E": {"actions": ["tr:e"]}}},
         },
-        "on": {"PING": {"actions": ["tr:ping"]}},
+        "on": {"PING": {"actions": ["tr:ping"]}, "KPING1": {"actions": ["tr:kping"]}, "KPING2": {"actions": ["tr:kping"]}},
     }
 
 
@@ -83,7 +96,7 @@ class Life:
     def __init__(self, engine: str) -> None:
         self.engine = engine
         self.h = Harness(make_cfg(), with_plugin=True, threads=True, budget=4000,
-                         services={"kid": kid_machine(), "bad": bad_service})
+                         services={"kid": kid_machine(), "kid2": kid2_machine(), "bad": bad_service})
         self.d = self.h.driver(engine)
         self.restored = False
         self.problems: List[Tuple[str, str]] = []
@@ -139,6 +152,7 @@ class Life:
         mark = self.h.rec.mark()
         err: Optional[BaseException] = None
         kids_before = list(i._actors.values())
+        spawned_running = any(k.status == "running" and "k1" in k.id for k in kids_before)
         if op == "start":
             err = self.d.start()
         elif op == "stop":
@@ -181,6 +195,9 @@ class Life:
         seg = self.h.rec.since(mark)
         status1 = i.status
         acted = [e for e in seg if e[0] in ("A", "EV", "TR")]
+        # ---- a stopped child's delayed sends (with or without a send id) deliver nothing
+        if not spawned_running and op not in ("SPAWN",) and any(e[0] == "A" and e[1] == "tr:kping" for e in seg):
+            self.problems.append(("stopped-child-delivered-delayed-send", f"{op}: parent handled KPING although no spawned child is running"))
         # ---- specification automaton
         if status0 != status1 and (status0, status1) not in ALLOWED:
             self.problems.append(("illegal-status-edge", f"{status0} -> {status1} on {op}"))
